@@ -10,14 +10,15 @@ SPEC = {
     ],
     "rule": ("generated profiles (once/const/line, optionally two chained; 1-12 tokens per part over 1-4 s), 1-4 instances, shared or "
              "per-instance, discard_overflow on/off, cyclic response-time histories drawn from {0, 50ms, 0.5s, 1.7s, 1.9s, 2.1s, 2.4s, 3s, "
-             "3.5s} so that lateness lands on both sides of the 2 s threshold; real engine, real time, recording doubles, 48 cases "
+             "3.5s} so that lateness lands on both sides of the 2 s threshold; one case in five is a burst, a 2.6-3.4 s pause and a steady part with a slow "
+             "first response, so that tokens have to be waited for right after a discard; real engine, real time, recording doubles, 48 cases "
              "concurrently per process. For every token: T scheduled time, A instant Next returned it, B instant of Shoot entry / discard "
              "report (joined by goroutine id). Non-trivial = at least one token handed out >= 1 s late; distinct = hash of the case. "
              "TestNoEarlyShotDense: const / line profiles of 700-6000 tokens per second for 60-250 ms, 1-3 instances, responses of 0-900 us, "
              "so that instances keep arriving at their next token a fraction of a millisecond early; same per-token comparison (B >= T "
              "exactly); non-trivial = at least 10 shots entered within 1 ms after their token's time."),
     "floors": {"TestTiming/late_1_2s": 0.1, "TestTiming/late_2_3s": 0.1, "TestTiming/late_ge_3s": 0.1,
-               "TestTiming/discard_off": 0.1, "TestTiming/instances_gt_1": 0.3, "TestTiming/discards_seen": 0.2,
+               "TestTiming/discard_off": 0.1, "TestTiming/instances_gt_1": 0.3, "TestTiming/discards_seen": 0.2, "TestTiming/token_waited_for_right_after_a_discard": 0.08,
                "TestNoEarlyShotDense/shots_within_1ms_after_their_time": 0.4},
     "manifest": {
         "technique": "property-based testing (rapid generators, batch-parallel, real time) with an interval oracle over measured instants",
